@@ -624,7 +624,7 @@ def handleAcc (t : TextTable) (form da ka db kb same obs : String) : Option Line
       else .ok
     | .rem | .rema | .eq | .lt | .pcmp | .ordmax | .letbind | .hypot | .atan2 =>
       if differ && o then .prop s!"acc.{form}.oracle" "a program mixing different dimensions/kinds compiles" else .ok
-    | .newf | .getf => if same == "0" && o then .prop s!"acc.{form}.oracle" "a unit of another quantity is accepted" else .ok
+    | .newf | .getf | .fmtargs | .fmtwith | .floorf => if same == "0" && o then .prop s!"acc.{form}.oracle" "a unit of another quantity is accepted" else .ok
     | .from_ =>
       if differ && o && !(A.dim == B.dim && (A.kind == 0 || B.kind == 0)) then .prop "acc.from.oracle" "a conversion between different dimensions or two non-default kinds compiles"
       else .ok
@@ -697,11 +697,36 @@ def handleLine (tbl : TextTable) (line : String) : Option LineResult :=
     match numTy? vt with
     | some N => handleFrom N vt pair ul ur lp rp a obs
     | none => none
-  | ["convx", vt, _base, _module, _unit, coef, consA, consS, pows, v, newObs, getObs, rtObs] =>
+  | ["convx", vt, _base, module, unit, coef, consA, consS, pows, v, newObs, getObs, rtObs] =>
     match numTy? vt with
-    | some N => handleConvx N (vt == "bigrational" || vt == "rational64") vt coef consA consS pows v newObs getObs rtObs
+    | some N => do
+      let r ← handleConvx N (vt == "bigrational" || vt == "rational64") vt coef consA consS pows v newObs getObs rtObs
+      -- arbitrary-precision storage takes the unit's coefficient and offset from the f64 literal *exactly*
+      -- (`Ratio::<BigInt>::from_f64`): what it publishes must be the declared value (table row, when the
+      -- dump precedes the cases); fixed-width types approximate and are not judged here
+      let big := vt == "bigrational" || vt == "bigint" || vt == "biguint"
+      let decl : Outcome :=
+        if !big then .ok else
+        match (tbl.units.get? module).bind (fun rows => rows.find? (fun row => row.name == unit)) with
+        | none => .ok
+        | some row =>
+          match flOf? b64 row.conv[0]!, flOf? b64 row.conv[1]!, flOf? b64 row.conv[2]!, parseRat? coef, parseRat? consA, parseRat? consS with
+          | some c, some a, some s', some pc, some pa, some ps =>
+            -- (within one binary64 ulp of the literal's f64 value: the exact expansion the code uses today
+            --  passes, and so would a more faithful reading of the decimal literal; 0, a panic or another
+            --  unit's coefficient do not)
+            let near (p x : Rat) : Bool := ratAbs (p - x) ≤ ratAbs x / 4503599627370496
+            if near pc c.toRat && near pa a.toRat && near ps s'.toRat then .ok
+            else .prop "exact.decl.oracle" s!"{vt} publishes coefficient/offsets ({coef}, {consA}, {consS}) for {module}::{unit}; the unit declares {showRat c.toRat}, {showRat a.toRat}"
+          | _, _, _, _, _, _ => .ok
+      return { r with outs := r.outs ++ [decl] }
     | none => none
-  | ["skip", vt, _base, _module, _unit] => some ⟨[.guard "coefficient not representable"], [s!"skip:{vt}"], false⟩
+  | ["skip", vt, _base, module, unit] =>
+    -- a coefficient the storage type cannot represent (the conversion panics): tolerated for fixed-width
+    -- types; arbitrary-precision types can represent every declared coefficient
+    if vt == "bigrational" || vt == "bigint" || vt == "biguint" then
+      some ⟨[.prop "exact.decl.oracle" s!"{vt}: the coefficient of {module}::{unit} cannot be computed (panic) although the storage type is unbounded"], [s!"skip:{vt}"], true⟩
+    else some ⟨[.guard "coefficient not representable"], [s!"skip:{vt}"], false⟩
   | ["cplx", vt, _base, module, unit, coef, consA, consS, pows, re, im, norm, nre, nim, gre, gim, rre, rim] => do
     let f ← fmtOf? (if vt == "complex64" then "f64" else "f32")
     let c ← convCase? (if vt == "complex64" then "f64" else "f32") coef consA consS pows re
@@ -777,6 +802,12 @@ def handleLine (tbl : TextTable) (line : String) : Option LineResult :=
         else if ratAbs (o.toRat - exact) ≤ 2 * k * uro f * ratAbs exact then .ok
         else .prop "pow.oracle" "a factor of the base-unit combination is not the base unit's coefficient raised to the quantity's exponent"
     return ⟨[cmpFl f "pow.model" m o, orc], [s!"pow:{e}"], e != 0 && Fl.cmp c (Fl.one f) != some 0⟩
+  | ["num", vt, a, toSi, fromSi, toK, fromK] =>
+    -- C15: a bare number converts to and from a ratio unchanged, whatever the base units (same encoding back)
+    let bad := [toSi, fromSi, toK, fromK].filter (· != a)
+    some ⟨[if bad.isEmpty then .ok
+           else .prop "num.oracle" s!"a bare number does not convert to / from a ratio unchanged ({vt}: {a} became {bad.head!})"],
+          [s!"num:{vt}"], true⟩
   | ["xpow", vt, coef, e, obs] => do
     -- the same for exact / integer storage (factor type: a ratio, compared exactly) and for complex
     -- storage (factor type: the real float; `powi` is the library's, so only the oracle applies)
